@@ -12,11 +12,23 @@
 // Oracle (metamorphic, from the property text only):
 //
 //	(a) k runs (quick 5, thorough and saved cases 12), each from an identical pristine copy of the
-//	    tree at the SAME absolute path: identical exit status; if they succeed, identical tree
-//	    (paths, modes, contents). If all k runs fail the case is only counted.
-//	(b) one more run on top of that output (force-file-write: true from the start, so (a) and (b)
-//	    share one config): exit 0, tree unchanged, no new paths (no mocks of mocks).
+//	    tree at the SAME absolute path: identical exit status, whether that is 0 or not; if they
+//	    succeed, identical tree (paths, modes, contents). The property says nothing about WHICH
+//	    files a failing run leaves behind (mockery stops at the first output file that fails, in
+//	    map order), so the tree of failing runs is only classified, never judged.
+//	(b) one more run on top of that output (force-file-write: true at the root from the start, so
+//	    (a) and (b) share one config): exit 0, tree unchanged, no new paths (no mocks of mocks).
 //	(c) once more: unchanged.
+//	(b') if some level says force-file-write: false, a rerun over the earlier output legitimately
+//	    fails for those files only: the rerun is then repeated k times; every repetition must
+//	    exit with the same status and leave the tree exactly as it was (files that may be
+//	    overwritten are reproduced, the others are not touched, nothing is added).
+//
+// Partially failing runs: a fifth of the cases give some (about half) of the configured packages,
+// or single interfaces with an output file of their own, a setting that makes only THEIR output
+// files fail: an unknown formatter, template-data that the package's template-schema rejects, a
+// template-schema that does not exist while it is required, or force-file-write: false (fails
+// on the rerun only). Same inputs => same exit status in every repetition.
 //
 // stdout/stderr are don't-care (log order, timestamps). go.mod/go.sum are not outputs of
 // mockery and are left out of the comparison (the scratch go.mod is complete, so the go
@@ -55,8 +67,10 @@ type Level struct {
 	Template  string `json:"template,omitempty"`  // testify | matryer | probe
 	Schema    string `json:"schema,omitempty"`    // template-schema id (probe only)
 	ReqSchema string `json:"req_schema,omitempty"`
-	Include   string `json:"include,omitempty"`  // include-interface-regex
-	ExclSub   string `json:"excl_sub,omitempty"` // exclude-subpkg-regex (one entry)
+	Include   string `json:"include,omitempty"`   // include-interface-regex
+	ExclSub   string `json:"excl_sub,omitempty"`  // exclude-subpkg-regex (one entry)
+	Formatter string `json:"formatter,omitempty"` // below the root: only set by the partial-failure generator
+	Force     string `json:"force,omitempty"`     // force-file-write (the root always says true)
 	TD        []KV   `json:"td,omitempty"`
 }
 
@@ -286,6 +300,9 @@ func gen(t *rapid.T) Case {
 	// a recursive package unrelated to the nested pair (it can sit between them in any processing order)
 	wantThird := wantNested && chance(t, "want-third-recursive", 6)
 	row20Known := vh.Known(keyRow20) // repaired in /repo 732d8a4; the switch stays for the findings protocol
+	// partially failing runs: some packages (or single interfaces) carry a setting that fails their output files only
+	wantFault := chance(t, "want-partial-failure", 2)
+	faults := map[string]string{} // package dir -> fault kind
 
 	// ---- sources
 	present := map[string]bool{}
@@ -377,6 +394,9 @@ func gen(t *rapid.T) Case {
 			(wantThird && s.Dir == "zeta")
 		skip := wantNested && s.Dir == "alpha/beta/gamma" && chance(t, "gamma-discovered", 8)
 		pConf, pRec := 6, 5
+		if wantFault {
+			pConf = 8 // failing and succeeding output files side by side
+		}
 		if wantBig {
 			pConf, pRec = 9, 7
 		}
@@ -401,11 +421,23 @@ func gen(t *rapid.T) Case {
 			lv.Template = pick(t, "pkg.template", tmplIDs, 0)
 		}
 		lv.All = pick(t, "pkg.all", []string{"true", "true", "true", "false"}, 6)
+		if wantFault && chance(t, "fault:"+s.Dir, 5) {
+			faults[s.Dir] = genFault(t, row20Known)
+		}
 		pc.Config = &lv
 		c.Pkgs = append(c.Pkgs, pc)
 	}
 	if len(c.Pkgs) == 0 {
 		c.Pkgs = append(c.Pkgs, PkgCfg{Dir: c.Src[0].Dir, Config: &Level{}})
+	}
+	if wantFault && len(faults) == 0 {
+		faults[c.Pkgs[rapid.IntRange(0, len(c.Pkgs)-1).Draw(t, "fault-at")].Dir] = genFault(t, row20Known)
+	}
+	for i := range c.Pkgs {
+		// the schema faults need a template whose schema the case controls
+		if f := faults[c.Pkgs[i].Dir]; f == faultBadData || f == faultNoSchema {
+			c.Pkgs[i].Config.Template = "probe"
+		}
 	}
 	// are the effective templates uniform? then template-specific keys are admissible everywhere
 	uniform := true
@@ -446,6 +478,13 @@ func gen(t *rapid.T) Case {
 		if chance(t, "pkg.td?", 4) {
 			lv.TD = genTD(t, "pkg.td", tdPool(tm, uniform || !recursive), 2)
 		}
+		fault := faults[pc.Dir]
+		switch fault {
+		case faultFormatter:
+			lv.Formatter = rapid.SampledFrom(bogusFormatters).Draw(t, "bogus-formatter")
+		case faultNoOverwrite:
+			lv.Force = "false"
+		}
 		if lv.All != "true" && c.Root.All != "true" && chance(t, "pkg.include", 3) {
 			lv.Include = rapid.SampledFrom([]string{"^(Reader|Store|Client)", "^[L-Z]", ".*"}).Draw(t, "include")
 		}
@@ -454,7 +493,8 @@ func gen(t *rapid.T) Case {
 		}
 		if tm == "probe" {
 			// per-package schema settings: the known trigger when >=2 probe packages differ
-			if chance(t, "pkg.schema?", 5) || wantRow20 {
+			schemaFault := fault == faultBadData || fault == faultNoSchema
+			if chance(t, "pkg.schema?", 5) || wantRow20 || schemaFault {
 				sch := pick(t, "pkg.schema", schemaIDs, 1)
 				if commonSchema != "" && chance(t, "use-common-schema", 6) {
 					sch = commonSchema
@@ -467,6 +507,15 @@ func gen(t *rapid.T) Case {
 				if recursive && (sch == "alpha" || sch == "beta") {
 					sch = "loose"
 				}
+				if schemaFault {
+					// validation is on (require-template-schema-exists defaults to true)
+					req = pick(t, "fault.req-schema", []string{"true"}, 1)
+					if fault == faultBadData {
+						sch = pick(t, "fault.schema", []string{"alpha", "beta"}, 0)
+					} else {
+						sch = "missing"
+					}
+				}
 				lv.Schema, lv.ReqSchema = sch, req
 				switch sch {
 				case "alpha":
@@ -477,6 +526,9 @@ func gen(t *rapid.T) Case {
 				// opted out of validation: data the strict schema rejects is then fine (not a recursive
 				// package, so the data stays in this package; the strict schemas are never on recursive ones)
 				if (sch == "alpha" || sch == "beta") && req == "false" && chance(t, "unvalidated-bad-data", 7) {
+					lv.TD = setKV(delKV(delKV(lv.TD, "alpha"), "beta"), KV{"rejected", `"by the strict schemas"`})
+				}
+				if fault == faultBadData {
 					lv.TD = setKV(delKV(delKV(lv.TD, "alpha"), "beta"), KV{"rejected", `"by the strict schemas"`})
 				}
 			}
@@ -505,6 +557,17 @@ func gen(t *rapid.T) Case {
 					ic.Configs = append(ic.Configs, cl)
 				}
 			}
+			// a single interface whose output file (one of its own) fails while its neighbours' files succeed
+			if wantFault && len(ic.Configs) == 0 && ownFile(ic.Config, lv, &c.Root) && chance(t, "iface-fault?", 4) {
+				if ic.Config == nil {
+					ic.Config = &Level{}
+				}
+				if chance(t, "iface-fault=no-overwrite", 4) {
+					ic.Config.Force = "false"
+				} else {
+					ic.Config.Formatter = rapid.SampledFrom(bogusFormatters).Draw(t, "bogus-formatter")
+				}
+			}
 			pc.Ifaces = append(pc.Ifaces, ic)
 		}
 	}
@@ -517,6 +580,45 @@ func gen(t *rapid.T) Case {
 		}
 	}
 	return c
+}
+
+// fault kinds: settings that make the output files of one package (or interface) fail, nothing else
+const (
+	faultFormatter   = "unknown-formatter"
+	faultBadData     = "schema-rejects-data"
+	faultNoSchema    = "schema-missing"
+	faultNoOverwrite = "no-overwrite" // fails only once the output exists: the rerun phase
+)
+
+var bogusFormatters = []string{"nosuch", "gofumpt"}
+
+func genFault(t *rapid.T, row20Known bool) string {
+	kinds := []string{faultFormatter, faultNoOverwrite, faultBadData, faultNoSchema, faultFormatter, faultNoOverwrite}
+	f := kinds[rapid.IntRange(0, len(kinds)-1).Draw(t, "fault-kind")]
+	if row20Known && (f == faultBadData || f == faultNoSchema) {
+		// per-package schema settings are switched off while that finding is open
+		vh.Excluded(keyRow20)
+		f = faultFormatter
+	}
+	return f
+}
+
+var perIfaceLayouts = map[string]bool{"test-per": true, "src-per": true, "src-mid-per": true, "sub-per": true, "sn-dir": true}
+
+// ownFile: does the nearest level that says where the output goes give every interface a file of its own?
+func ownFile(levels ...*Level) bool {
+	for _, l := range levels {
+		if l == nil {
+			continue
+		}
+		if l.FileOnly != "" {
+			return true
+		}
+		if l.Layout != "" {
+			return perIfaceLayouts[l.Layout]
+		}
+	}
+	return false // the default: one mocks_test.go per package
 }
 
 func genIfaceLevel(t *rapid.T, label, tmpl, forceStruct string) Level {
@@ -710,6 +812,12 @@ func renderLevel(b *strings.Builder, ind string, l Level, first string) {
 	if l.ReqSchema != "" {
 		emit("require-template-schema-exists", l.ReqSchema)
 	}
+	if l.Formatter != "" {
+		emit("formatter", l.Formatter)
+	}
+	if l.Force != "" {
+		emit("force-file-write", l.Force)
+	}
 	if l.Layout != "" {
 		d := layouts[l.Layout]
 		emit("dir", q(d.dir))
@@ -805,6 +913,8 @@ func render(c Case) map[string]string {
 type shape struct {
 	nestedRecursive, explicitUnderRecursive, anyRecursive, multiConfigs, sameNameImports bool
 	row20, reqDiffers, structPiped, reparse, nullEntry, discovered                       bool
+	faulty                                                                               bool // some level carries a setting that fails its output files in every run
+	noOverwrite                                                                          bool // some level says force-file-write: false: its files fail once they exist
 	classes                                                                              []string
 }
 
@@ -981,6 +1091,64 @@ func analyse(c Case) shape {
 	}
 	flag(nestedPlusUnrelated && s.discovered, "hazard=nested-recursive+unrelated-recursive")
 	flag(s.nullEntry, "null-package-entry")
+	// settings that fail single output files
+	validFmt := map[string]bool{"": true, "goimports": true, "gofmt": true, "noop": true}
+	faultOf := func(l *Level, tm string) []string {
+		var out []string
+		if l == nil {
+			return nil
+		}
+		if !validFmt[l.Formatter] {
+			out = append(out, faultFormatter)
+		}
+		if l.Force == "false" {
+			out = append(out, faultNoOverwrite)
+		}
+		if tm == "probe" && l.ReqSchema != "false" {
+			rejected := false
+			for _, kv := range l.TD {
+				rejected = rejected || kv.K == "rejected"
+			}
+			if l.Schema == "missing" {
+				out = append(out, faultNoSchema)
+			} else if (l.Schema == "alpha" || l.Schema == "beta") && rejected {
+				out = append(out, faultBadData)
+			}
+		}
+		return out
+	}
+	faultyPkgs, faultyIfaces := 0, 0
+	for _, p := range c.Pkgs {
+		fs := faultOf(p.Config, effTemplate(c.Root, p.Config))
+		if len(fs) > 0 {
+			faultyPkgs++
+		}
+		for _, ic := range p.Ifaces {
+			fi := faultOf(ic.Config, "")
+			if len(fi) > 0 {
+				faultyIfaces++
+			}
+			fs = append(fs, fi...)
+		}
+		for _, f := range fs {
+			if f == faultNoOverwrite {
+				s.noOverwrite = true
+			} else {
+				s.faulty = true
+			}
+			add("fault=" + f)
+		}
+	}
+	if s.faulty || s.noOverwrite {
+		add("hazard=partial-failure")
+		switch {
+		case faultyPkgs == len(c.Pkgs):
+			add("faulty-packages=all")
+		case faultyPkgs > 0:
+			add("faulty-packages=some")
+		}
+		flag(faultyIfaces > 0, "faulty-single-interfaces")
+	}
 	flag(c.Root.Recursive == "true", "root-recursive")
 	tdLevels := 0
 	if len(c.Root.TD) > 0 {
@@ -1010,11 +1178,24 @@ func analyse(c Case) shape {
 	}
 	add(fmt.Sprintf("template-data-levels=%d", tdLevels))
 	sort.Strings(s.classes)
+	s.classes = uniq(s.classes)
 	return s
+}
+
+func uniq(in []string) []string {
+	var out []string
+	for i, x := range in {
+		if i == 0 || x != in[i-1] {
+			out = append(out, x)
+		}
+	}
+	return out
 }
 
 func (s shape) hazard() string {
 	switch {
+	case s.faulty || s.noOverwrite:
+		return "partial-failure"
 	case s.row20:
 		return "shared-remote-template+schema-differs"
 	case s.reqDiffers:
@@ -1146,11 +1327,16 @@ func run(c Case) *vh.Violation {
 	}
 	sh := analyse(c)
 	files := render(c)
-	outputs := 0
+	outputs := 0          // output files of run 1 (of the run that wrote most, when the runs fail)
+	partialSeen := false  // every pristine run failed and at least one of them wrote an output file
+	rerunPartial := false // every repeated rerun failed although overwriting is enabled at the root
 	classes := sh.classes
 	defer func() {
 		fp := ""
 		if outputs >= 2 && (sh.nestedRecursive || sh.multiConfigs || sh.explicitUnderRecursive || sh.sameNameImports) {
+			fp = vh.Hash(vh.JSON(c))
+		}
+		if partialSeen || rerunPartial {
 			fp = vh.Hash(vh.JSON(c))
 		}
 		switch {
@@ -1217,6 +1403,16 @@ func run(c Case) *vh.Violation {
 	var r1 vh.Result
 	var s1, tree1 map[string]string
 	var h1 string
+	written := func(si map[string]string) int {
+		n := 0
+		for p, d := range si {
+			if _, ok := base[p]; !ok && strings.HasPrefix(d, "f:") {
+				n++
+			}
+		}
+		return n
+	}
+	failTrees := map[string]bool{}
 	for i := 1; i <= k; i++ {
 		if i > 1 {
 			pristine()
@@ -1224,16 +1420,18 @@ func run(c Case) *vh.Violation {
 		ri := mock()
 		si := snap(dir)
 		hi := vh.HashSnap(si)
-		fmt.Fprintf(&log, "run %d: exit %d tree %s\n", i, ri.Exit, hi)
+		fmt.Fprintf(&log, "run %d: exit %d tree %s (%d output files)\n", i, ri.Exit, hi, written(si))
+		if ri.Exit != 0 {
+			failTrees[hi] = true
+			if w := written(si); w > outputs {
+				outputs = w
+			}
+		}
 		if i == 1 {
 			r1, s1, h1 = ri, si, hi
 			if r1.Exit == 0 {
 				tree1 = vh.ReadTree(dir)
-				for p, d := range s1 {
-					if _, ok := base[p]; !ok && strings.HasPrefix(d, "f:") {
-						outputs++
-					}
-				}
+				outputs = written(s1)
 			}
 			continue
 		}
@@ -1262,18 +1460,51 @@ func run(c Case) *vh.Violation {
 		}
 	}
 	if r1.Exit != 0 {
-		classes = append(classes, "exit=nonzero-in-all-runs(boring)")
-		vh.Note("consistently failing case: %s", vh.Trunc(strings.ReplaceAll(stderrTail(r1), dir, "<dir>"), 400))
+		// All k runs agree on a non-zero status: that is what the property asks of failing runs. What they
+		// leave behind is not specified (the real binary stops at the first failing file, in map order).
+		classes = append(classes, "exit=nonzero-in-all-runs")
+		if outputs > 0 {
+			partialSeen = true
+			classes = append(classes, "partial-failure=observed(failing-runs-wrote-output-files)")
+		} else {
+			classes = append(classes, "failing-runs-wrote-nothing")
+		}
+		if len(failTrees) > 1 {
+			classes = append(classes, "failing-run-tree=varies(unspecified)")
+		} else {
+			classes = append(classes, "failing-run-tree=same")
+		}
+		if !sh.faulty {
+			vh.Note("consistently failing case without a generated fault: %s", vh.Trunc(strings.ReplaceAll(stderrTail(r1), dir, "<dir>"), 400))
+		}
 		return nil
 	}
 	classes = append(classes, "exit=0-in-all-runs")
 
-	// ---- idempotence: two more runs on top of the output (the tree now holds run k's output, identical to run 1's)
-	for i, name := range []string{"rerun", "third-run"} {
+	// ---- idempotence: two more runs on top of the output (the tree now holds run k's output, identical to run 1's).
+	// With force-file-write: false somewhere the rerun may fail for those files; it is then repeated k times
+	// from the same state (the tree is demanded unchanged after each, so the state IS the same).
+	names := []string{"rerun", "third-run"}
+	if sh.noOverwrite {
+		for len(names) < k {
+			names = append(names, "later-rerun")
+		}
+	}
+	rerunExit := 0
+	for i, name := range names {
 		rb := mock()
 		sb := snap(dir)
 		fmt.Fprintf(&log, "%s on top of the previous output: exit %d tree %s\n", name, rb.Exit, vh.HashSnap(sb))
-		if rb.Exit != 0 {
+		if sh.noOverwrite {
+			if i == 0 {
+				rerunExit = rb.Exit
+			} else if rb.Exit != rerunExit {
+				bad := rb
+				return fail("rerun-exit-status-differs", "same tree (sources, config and mockery's earlier output), force-file-write: false at some level: rerun 1 exited %d, rerun %d exited %d", rerunExit, i+1, rb.Exit).
+					With(shown, log.String()+"--- stderr of the last rerun\n"+strings.ReplaceAll(stderrTail(bad), dir, "<dir>"))
+			}
+		}
+		if rb.Exit != 0 && !sh.noOverwrite {
 			// a previous output that does not compile makes the packages unloadable: C01's business
 			pristine()
 			if rr := mock(); rr.Exit == 0 {
@@ -1302,6 +1533,11 @@ func run(c Case) *vh.Violation {
 				With(shown, log.String()+desc)
 		}
 	}
+	if sh.noOverwrite && rerunExit != 0 {
+		rerunPartial = true
+		classes = append(classes, "rerun=fails-in-all-repetitions(no-overwrite),tree-unchanged")
+		return nil
+	}
 	classes = append(classes, "rerun=unchanged")
 	return nil
 }
@@ -1310,6 +1546,6 @@ func TestProp(t *testing.T) {
 	if _, err := os.Stat(vh.SUT()); err != nil {
 		t.Skipf("mockery binary missing: %v", err)
 	}
-	vh.Note("k=%d pristine runs per case (saved cases: 12 unless the case says otherwise) + 2 reruns over the output. Go ranges over a map of <=8 entries from a random slot of its single bucket, so only rotations of the insertion order occur: two given keys swap with probability d/8 per run (d = their distance in insertion order; 1/8 for a two-entry map). Measured on builds with the repairs reverted: 0.27 (nested recursive packages) and 0.38 (shared remote template) per run for the minimal cases, 0.5 once the map has >=9 entries. All k runs agree on a p-dependent outcome with probability (1-p)^k+p^k: k=5: 0.51 (p=1/8), 0.21 (p=0.27), 0.06 (p=1/2); k=12: 0.20, 0.023, 0.0005", vh.Pick(5, 12))
+	vh.Note("k=%d pristine runs per case (saved cases: 12 unless the case says otherwise) + 2 reruns over the output. Go ranges over a map of <=8 entries from a random slot of its single bucket, so only rotations of the insertion order occur: two given keys swap with probability d/8 per run (d = their distance in insertion order; 1/8 for a two-entry map). Measured on builds with the repairs reverted: 0.27 (nested recursive packages) and 0.38 (shared remote template) per run for the minimal cases, 0.5 once the map has >=9 entries. All k runs agree on a p-dependent outcome with probability (1-p)^k+p^k: k=5: 0.51 (p=1/8), 0.21 (p=0.27), 0.06 (p=1/2); k=12: 0.20, 0.023, 0.0005. Partially failing runs (class hazard=partial-failure): only the exit status is compared between failing repetitions; a rerun that fails because of force-file-write: false is repeated k times and must leave the tree unchanged each time", vh.Pick(5, 12))
 	vh.Main(t, vh.Check[Case]{Gen: gen, Run: run})
 }
